@@ -51,8 +51,8 @@ static void run_unit(const std::map<std::string,std::string>& spec)
     std::vector<Kind> targets = ks.rel ? all_rel_kinds() : all_set_kinds();
     // two source alphabets: the kind's own, and (for EV+) one without +infinity so that every target can represent it
     for (int alt=0; alt<2; alt++) {
-        std::vector<double> V = alphabet(ks);
-        if (alt==1) { if (!ks.isEVp()) break; V = {0,1,3,5}; }
+        std::vector<double> V = alphabet_for(ks,s);            // two values when function numbers over this shape would overflow 64 bits
+        if (alt==1) { if (!ks.isEVp()) break; V = {0,1,3,5}; if ((double)P*2 > 64.0) V = {1,3}; }
         unsigned long U = ipow(V.size(),P);
         std::vector<unsigned long> idx;
         if (sel=="all" && U<=65536) for (unsigned long i=0;i<U;i++) idx.push_back(i);
